@@ -812,13 +812,28 @@ class Fn:
         # the type dispatch on dynamically typed operands
         d = self.dispatch_test(s.test, env)
         if d is not None:
-            (n1, c1), (n2, c2) = d
-            env2 = dict(env); env2[n1] = c1; env2[n2] = c2
-            if not terminates(s.body):
-                fail(s, "a dispatch branch must end in return / raise")
-            body = self.block(s.body, env2, lambda e_: fail(s, "dispatch branch fell through"), lo)
-            other = self.block(s.orelse + tail if s.orelse else tail, env, rest, lo)
-            return "(match %s, %s with %s _ _ _ %s, %s _ _ _ %s => %s | _, _ => %s end)" % (n1, n2, CLS2CON[c1], n1, CLS2CON[c2], n2, body, other)
+            # the whole if / elif chain of type tests on the same two operands becomes ONE match (the tests are exact type equalities, so the
+            # clauses are disjoint; a repeated pair would be unreachable in Python and is rejected)
+            (n1, _), (n2, _) = d
+            clauses = []; seen = set(); cur = s
+            while True:
+                dd = self.dispatch_test(cur.test, env)
+                if dd is None or dd[0][0] != n1 or dd[1][0] != n2:
+                    fail(cur, "mixed tests in a type-dispatch chain")
+                c1, c2 = dd[0][1], dd[1][1]
+                if (c1, c2) in seen:
+                    fail(cur, "repeated (unreachable) dispatch clause")
+                seen.add((c1, c2))
+                if not terminates(cur.body):
+                    fail(cur, "a dispatch branch must end in return / raise")
+                env2 = dict(env); env2[n1] = c1; env2[n2] = c2
+                clauses.append("| %s _ _ _ %s, %s _ _ _ %s => %s" % (CLS2CON[c1], n1, CLS2CON[c2], n2, self.block(cur.body, env2, lambda e_: fail(s, "dispatch branch fell through"), lo)))
+                if len(cur.orelse) == 1 and isinstance(cur.orelse[0], ast.If) and self.dispatch_test(cur.orelse[0].test, env) is not None:
+                    cur = cur.orelse[0]
+                else:
+                    break
+            other = self.block(cur.orelse + tail, env, rest, lo)
+            return "(match %s, %s with %s | _, _ => %s end)" % (n1, n2, " ".join(clauses), other)
         if isinstance(s.test, ast.Compare) and isinstance(s.test.left, ast.Call) and ast.unparse(s.test.left.func) == "type" and ast.unparse(s.test.comparators[0]) == "list" \
                 and isinstance(s.test.ops[0], ast.Eq) and isinstance(s.test.left.args[0], ast.Name) and env.get(s.test.left.args[0].id) == "arg":
             x = s.test.left.args[0].id
